@@ -225,7 +225,17 @@ pub fn generate(prop: &str, thorough: bool, rng: &mut Rng) -> Case {
                 }
                 clients.push(ops);
             }
-            if rng.chance(1, 3) {
+            // an eighth of the runs: a first round whose origin is slow (and often fails) gets closed by an explicit
+            // insert, the key leaves again, and a second round starts while the first origin is still resolving
+            if rng.chance(1, 8) {
+                let k = rng.below(keys as usize) as u64;
+                clients.truncate(2);
+                clients.insert(0, vec![Op::Fetch { k, ver: vc.next(), w: 1, yields: 1 + rng.below(4) as u8, fail: rng.chance(2, 3), hold: false }]);
+                let mut b = vec![Op::Yield { n: 1 + rng.below(2) as u8 }, Op::Insert { k, ver: vc.next(), w: 1, loc: 0, hold: false }];
+                b.push(if rng.chance(2, 3) { Op::Remove { k } } else { Op::EvictAll });
+                b.push(Op::Fetch { k, ver: vc.next(), w: 1, yields: rng.below(3) as u8, fail: false, hold: false });
+                clients.insert(1, b);
+            } else if rng.chance(1, 3) {
                 let k = rng.below(keys as usize) as u64;
                 let mut ops = vec![Op::Yield { n: 1 + rng.below(3) as u8 }];
                 ops.push(match rng.below(3) {
